@@ -443,10 +443,12 @@ def run(index, rep, tier):
     # ---- R02.15 inside quotes every character is the label's own
     with rep.section("R02.15"):
         rep.rule("R02.15", "inside quotes every character is the label's own: in the quoted-token branch of Tokenizer._next_token_or_none (a) what is appended to the token is the current character of the document (or the quote character for a doubled quote) - never a constant; (b) the current character is never overwritten; (c) the loop consults no character class - it compares the current character with the end of input and with the opening quote only. The writers put a label with a blank, tab or line end inside quotes precisely so that it comes back as written")
-        tkn = index.function("dendropy.dataio.tokenizer.Tokenizer._next_token_or_none")
-        qb = [st for st in walk_no_nested(tkn.node) if isinstance(st, ast.If) and "self.quote_chars" in norm(st.test)]
-        if len(qb) != 1:
-            raise AnalysisError("R02.15: the quoted-token branch of Tokenizer._next_token_or_none not recognised")
+        # the method is found by what it does (the branch on the quote characters), not by its name
+        cands15 = [(mf, st) for mf in index.klass("dendropy.dataio.tokenizer.Tokenizer").methods.values() for st in walk_no_nested(mf.node) if isinstance(st, ast.If) and "self.quote_chars" in norm(st.test)]
+        if len(cands15) != 1:
+            raise AnalysisError("R02.15: the quoted-token branch of the Tokenizer not recognised (%d candidates)" % len(cands15))
+        tkn = cands15[0][0]
+        qb = [cands15[0][1]]
         body = qb[0].body
         loops = [l for st in body for l in ast.walk(st) if isinstance(l, ast.While)]
         if len(loops) != 1:
